@@ -641,10 +641,19 @@ static Token *subst(Token *tok, MacroArg *args) {
     // If __VA_ARG__ is empty, __VA_OPT__(x) is expanded to the
     // empty token list. Otherwise, __VA_OPT__(x) is expanded to x.
     if (equal(tok, "__VA_OPT__") && equal(tok->next, "(")) {
+      Token *opt = tok;
       MacroArg *arg = read_macro_arg_one(&tok, tok->next->next, true);
-      if (has_varargs(args))
-        for (Token *t = subst(arg->tok, args); t->kind != TK_EOF; t = t->next)
+      if (has_varargs(args)) {
+        // The first token of the group stands where __VA_OPT__ stood,
+        // so it takes the white space of that token.
+        Token *t = subst(arg->tok, args);
+        if (t->kind != TK_EOF) {
+          t->at_bol = opt->at_bol;
+          t->has_space = opt->has_space;
+        }
+        for (; t->kind != TK_EOF; t = t->next)
           cur = cur->next = t;
+      }
       tok = skip(tok, ")");
       continue;
     }
